@@ -104,6 +104,8 @@ def lower(v, memo=None):
         if v and v[0] in ('<invalid>', '<card>'):
             raise CannotLower(f'ill-typed value in model: {v}')
         return tuple(lower(x, memo) for x in v)
+    if type(v).__name__ == 'AbsLine':
+        raise CannotLower('abstract line')
     if isinstance(v, (V.Sym, GList)):
         raise CannotLower(f'symbolic value {v!r}')
     return v
@@ -262,6 +264,8 @@ def native_check(c, registry, args):
             ns_old[gk] = gv
     try:
         result = fn(*[args[k] for k in order])
+        if inspect.isgeneratorfunction(fn):
+            result = list(result)
         outcome = 'return'
     except BaseException as e:  # noqa
         outcome = e
@@ -276,6 +280,8 @@ def native_check(c, registry, args):
         info['result'] = describe_native(result)
         ns['result'] = result
         for name, efn in c.ensures:
+            if 'frame' in inspect.signature(efn).parameters:
+                continue        # speaks about the activation's locals: symbolic check only
             try:
                 ok = efn(*_pick(efn, ns, order))
             except Exception as e:
@@ -283,6 +289,14 @@ def native_check(c, registry, args):
                 info[f'clause-error:{name}'] = repr(e)
             if not ok:
                 failures.append((f'{short}/post/{name}', 'postcondition false'))
+        for name, oname, efn in c.native_ensures:
+            try:
+                ok = efn(*_pick(efn, ns, order))
+            except Exception as e:
+                ok = False
+                info[f'clause-error:{name}'] = repr(e)
+            if not ok:
+                failures.append((f'{short}/{oname}', f'{name} false on the real run'))
         if c.result_fn is not None:
             try:
                 spec_val = c.result_fn(*_pick(c.result_fn, ns_old, order))
@@ -332,6 +346,8 @@ def native_check(c, registry, args):
                                  f'raised {type(e).__name__} outside its stated condition'))
             ns['exc'] = type(e)
             for name, efn in c.exc_ensures:
+                if 'frame' in inspect.signature(efn).parameters:
+                    continue
                 try:
                     ok = efn(*_pick(efn, ns, order))
                 except Exception as e2:
